@@ -5,8 +5,7 @@ import time
 
 import vf
 
-import os
-READY = os.environ.get("VERIF_GASSCHED_DEV") == "1"   # TEMPORARY (development): replaced by a literal before hand-over
+READY = True
 SERVES = {
     "C14": dict(
         technique="TLA+ spec GasSchedule.tla (every price as an operator of (hardfork, arguments), written from the Yellow Paper and the EIPs) evaluated by TLC into a case table; every case executed on the real functions of revm_interpreter::gas and the returned value compared (spec->impl conformance); TLC also checks invariants of the table, the net-metering invariants of SSTORE sequences and schedule-wide ASSUMEs",
